@@ -23,7 +23,14 @@ static void my_put_page(const addrxlat_buffer_t *buf)
 	++n_puts;
 }
 
-#define TOP 0xfffffffffffff000ULL
+/* the same function as ReadCache.synth_get_page / synth_byte: the layout depends on
+ * the low 16 bits of the address only (so every region has look-alikes 2^16, 2^31,
+ * 2^32, ... away), the bytes depend on the whole address */
+static unsigned char synth_byte(unsigned as, uint64_t a)
+{
+	return (unsigned char)((a * 13 + (uint64_t)as * 3 + 1 + (a >> 16) * 7 + (a >> 31) * 5
+				+ (a >> 32) * 11 + (a >> 63) * 17) & 0xff);
+}
 
 static addrxlat_status my_get_page(const addrxlat_cb_t *cb, addrxlat_buffer_t *buf)
 {
@@ -38,7 +45,7 @@ static addrxlat_status my_get_page(const addrxlat_cb_t *cb, addrxlat_buffer_t *b
 		nest_status = (int)get_cache_buf(the_ctx, &nest_addr, &nb);
 		clear_error(the_ctx);
 	}
-	if (a < 0x10000 || a >= TOP) {
+	if ((a / 0x8000) % 2 == 0) {
 		blk = a / 0x1000;
 		if (blk % 8 == 5) return ADDRXLAT_ERR_NODATA;
 		base = blk * 0x1000; size = 0x1000;
@@ -50,7 +57,7 @@ static addrxlat_status my_get_page(const addrxlat_cb_t *cb, addrxlat_buffer_t *b
 	p = malloc(sizeof *p);
 	p->data = malloc(size);
 	for (i = 0; i < size; ++i)
-		p->data[i] = (unsigned char)(((base + i) * 13 + (uint64_t)as * 3 + 1) & 0xff);
+		p->data[i] = synth_byte(as, base + i);
 	p->next = pages; p->pprev = &pages;
 	if (pages) pages->pprev = &p->next;
 	pages = p;
@@ -109,7 +116,8 @@ int main(int argc, char **argv)
 				addrxlat_buffer_t *buf;
 				st = get_cache_buf(ctx, &fa, &buf);
 				if (st == ADDRXLAT_OK)
-					printf("G0=%x", (unsigned)((const unsigned char *)buf->ptr)[fa.addr - buf->addr.addr]);
+					printf("G0=%" PRIx64 ":%x", (uint64_t)buf->addr.addr,
+					       (unsigned)((const unsigned char *)buf->ptr)[0]);
 				else
 					printf("G%d", (int)st);
 			} else if (fld[0][0] == 'N') {
